@@ -3056,3 +3056,108 @@ func H_C10_validateText() {
 	verifCover("outputs and arguments validated under four map orders")
 	verifAssert(a == b && a == c && a == d, "C10: the text of output / argument validation errors does not depend on map iteration order (ghost)")
 }
+
+const vrZipSrc = `
+stage GEN(
+    out int[] xs,
+    src comp  "g",
+)
+
+stage ZIP(
+    in  int x,
+    in  int y,
+    out int r,
+    src comp "z",
+)
+
+pipeline TOP(
+    out int[] rs,
+)
+{
+    call GEN as GEN_A()
+    call GEN as GEN_B()
+
+    map call ZIP(
+        x = split GEN_A.xs,
+        y = split GEN_B.xs,
+    )
+
+    return (
+        rs = ZIP.r,
+    )
+}
+
+call TOP()
+`
+
+type vrZip struct {
+	ps         *Pipestance
+	a, b, zip  *Node
+}
+
+func vrZipGraph() *vrZip {
+	disableUniquification = false
+	return verifCached("vrZipGraph", func() any {
+		rt := &Runtime{Config: &RuntimeOptions{JobMode: "local", VdrMode: VdrDisable}, mrjob: "/m/mrjob", adaptersPath: "/m/adapters"}
+		_, _, ps, err := rt.instantiatePipeline([]byte(vrZipSrc), "/m/p.mro", "ps", "/ps", nil, "none", nil, false, true, context.Background())
+		if err != nil {
+			panic("fixture does not instantiate: " + err.Error())
+		}
+		n := func(name string) *Node { return ps.node.top.allNodes["ID.ps.TOP."+name] }
+		return &vrZip{ps, n("GEN_A"), n("GEN_B"), n("ZIP")}
+	}).(*vrZip)
+}
+
+// H_C01_zipLengths(na, nb): a call mapped over two arrays at once, produced by
+// two stages at run time with na and nb elements.
+//
+//	C01/C03: with equal lengths there is one fork per index and fork i gets
+//	     (xs[i], ys[i]).  With different non-zero lengths the mismatch is
+//	     reported - no element of either array is silently left out.
+func H_C01_zipLengths(na, nb int) {
+	w := vrZipGraph()
+	vrOuts = map[*Metadata]LazyArgumentMap{}
+	mk := func(n int) []json.RawMessage {
+		xs := make([]json.RawMessage, n)
+		for i := range xs {
+			xs[i] = vrDigit("element")
+		}
+		return xs
+	}
+	xs, ys := mk(na), mk(nb)
+	vrOuts[w.a.forks[0].metadata] = LazyArgumentMap{"xs": vrArray(xs)}
+	vrOuts[w.b.forks[0].metadata] = LazyArgumentMap{"xs": vrArray(ys)}
+	w.zip.expandForks(true)
+	verifCover("zipped call expanded")
+	failed := false
+	resolved := 0
+	for _, f := range w.zip.forks {
+		if len(f.forkId) != 1 {
+			continue
+		}
+		idx, ok := f.forkId[0].Id.(arrayIndexFork)
+		if !ok {
+			continue
+		}
+		_, args, err := w.zip.resolveInputs(f.forkId, false)
+		if err != nil {
+			failed = true
+			continue
+		}
+		i := int(idx)
+		resolved++
+		if i < na && i < nb {
+			want := vrCat([]byte(`{"x":`), xs[i], []byte(`,"y":`), ys[i], []byte(`}`))
+			verifAssert(verifBytesEq(vrEncode(args), want), "C01: fork i of a call mapped over two arrays receives the i-th element of each")
+		}
+	}
+	if na == nb {
+		verifAssert(!failed && (resolved == na || na == 0), "C01/C03: a call mapped over two arrays of equal length has one resolvable fork per index")
+	} else if na == 0 || nb == 0 {
+		// an empty collection maps to nothing (whether the other array's
+		// elements then count as "left out" is not claimed)
+		return
+	} else {
+		verifAssert(failed, "C01/C03: mapping a call over two run-time arrays of different lengths is reported as an error: no element of either array is silently left out")
+	}
+}
